@@ -127,7 +127,11 @@ type c10Result struct {
 func c10Run(c *Ctx, op string, doc []byte, massive bool, profile int, seed uint64, target string) (res c10Result, sched *mon.Sched) {
 	var opts []gtree.Option
 	if massive {
-		opts = append(opts, gtree.WithMassive(context.Background()))
+		if seed%5 == 0 {
+			opts = append(opts, gtree.WithMassive(nil)) // a nil context means "no cancellation"
+		} else {
+			opts = append(opts, gtree.WithMassive(context.Background()))
+		}
 	}
 	switch op {
 	case "branch":
